@@ -297,6 +297,30 @@ Theorem C18_generated_pvGetOffset_yields_offset :
 Proof. exact Main.reachable_generated_pvGetOffset. Qed.
 Print Assumptions C18_generated_pvGetOffset_yields_offset.
 
+(* round 5: the cxx2coq translation of the real DataColumnList::Contains (pointer out-parameter resOffset: p = 0 is
+   nullptr) IS the model's contains: same answer; a non-null resOffset receives exactly the offset, a null one nothing *)
+Theorem C18_generated_Contains_is_contains :
+  forall L st p code,
+    Model.contains_gen L st p code =
+    match Model.contains L st code with
+    | Some o => (true, if Z.eqb p 0 then 0 else o)
+    | None => (false, 0)
+    end.
+Proof. exact Inv.contains_refines. Qed.
+Print Assumptions C18_generated_Contains_is_contains.
+
+(* ... and on every reachable state (any history, any allocation failures) the GENERATED Contains answers true exactly
+   for the columns of the list, writes the column's recorded offset through a non-null resOffset, and gives the same
+   answer (writing nothing) when resOffset is nullptr *)
+Theorem C18_generated_Contains_iff_added :
+  forall L keep, 4 <= L <= 15 -> forall ops code, Forall (fun op => Inv.group_ok (snd op)) ops ->
+    let st := Model.run_f L keep ops in
+    (fst (Model.contains_gen L st 1 code) = true <-> In code (map Model.r_code (Model.columns st))) /\
+    (forall r, In r (Model.columns st) -> Model.contains_gen L st 1 (Model.r_code r) = (true, Model.r_off r)) /\
+    fst (Model.contains_gen L st 0 code) = fst (Model.contains_gen L st 1 code) /\ snd (Model.contains_gen L st 0 code) = 0.
+Proof. exact Main.reachable_generated_Contains. Qed.
+Print Assumptions C18_generated_Contains_iff_added.
+
 (* index bounds: in every reachable state mCodeParam <= maxCodeParam, and the vertex indices computed from it for ANY
    column code (added or not: Contains, GetOffset, the next Add) are inside mAddends / Graph::mEdges *)
 Theorem C18_reachable_indices_in_bounds :
